@@ -432,3 +432,50 @@ pub fn run_limited(args: &[std::ffi::OsString], timeout_s: u64) -> (Option<i32>,
     }
 }
 
+
+/// Run a command to completion with a wall-clock limit; on expiry the child is killed and
+/// `None` is returned as the exit code with "TIMEOUT" appended to stderr.
+pub fn output_with_timeout(cmd: &mut std::process::Command, secs: u64) -> (Option<i32>, Vec<u8>, Vec<u8>) {
+    use std::io::Read;
+    cmd.stdin(std::process::Stdio::null()).stdout(std::process::Stdio::piped()).stderr(std::process::Stdio::piped());
+    let mut child = cmd.spawn().unwrap_or_else(|e| machinery_error(format!("spawn: {e}")));
+    let mut so = child.stdout.take();
+    let mut se = child.stderr.take();
+    let t1 = std::thread::spawn(move || {
+        let mut b = Vec::new();
+        if let Some(s) = so.as_mut() {
+            let _ = s.read_to_end(&mut b);
+        }
+        b
+    });
+    let t2 = std::thread::spawn(move || {
+        let mut b = Vec::new();
+        if let Some(s) = se.as_mut() {
+            let _ = s.read_to_end(&mut b);
+        }
+        b
+    });
+    let start = std::time::Instant::now();
+    let mut timed_out = false;
+    let code = loop {
+        match child.try_wait() {
+            Ok(Some(st)) => break st.code(),
+            Ok(None) => {
+                if start.elapsed().as_secs() >= secs {
+                    timed_out = true;
+                    let _ = child.kill();
+                    let _ = child.wait();
+                    break None;
+                }
+                std::thread::sleep(std::time::Duration::from_millis(1));
+            }
+            Err(_) => break None,
+        }
+    };
+    let out = t1.join().unwrap_or_default();
+    let mut err = t2.join().unwrap_or_default();
+    if timed_out {
+        err.extend_from_slice(b"\nTIMEOUT: the command did not finish and was killed by the harness");
+    }
+    (code, out, err)
+}
